@@ -271,8 +271,9 @@ func matchExists(_ Context, doc bsonkit.Doc, _, path string, v interface{}) erro
 
 	// collect values along the path; All traverses arrays of subdocs and
 	// drops Missing entries when compact is set, so a non-empty result means
-	// at least one element along the path produced a value
-	value, multi := bsonkit.All(doc, path, true, true)
+	// at least one element along the path produced a value (the values are
+	// not merged as an empty array is a value as well)
+	value, multi := bsonkit.All(doc, path, true, false)
 	found := false
 	if multi {
 		if arr, ok := value.(bson.A); ok {
